@@ -31,8 +31,10 @@ pub type BusResult<'a> = Result<Option<Message<'a>>, Box<dyn Error + Send + Sync
 pub fn bus_error(cx: &Cx, what: &'static str) -> Box<dyn Error + Send + Sync> {
     use std::io;
     let kinds = [io::ErrorKind::TimedOut, io::ErrorKind::BrokenPipe, io::ErrorKind::Other, io::ErrorKind::UnexpectedEof, io::ErrorKind::WouldBlock];
-    match cx.draw(6) {
+    match cx.draw(8) {
         0 => Box::new(SimBusError(what)),
+        6 => Box::new(flipdot::SignError::UnexpectedResponse { expected: "nothing".into(), actual: what.into() }),
+        7 => Box::new(flipdot::SignError::Bus { source: Box::new(io::Error::new(io::ErrorKind::TimedOut, what)) }),
         1 => Box::new(io::Error::new(*cx.pick(&kinds), what)),
         2 | 3 => Box::new(flipdot_core::FrameError::from(io::Error::new(io::ErrorKind::TimedOut, what))),
         4 => Box::new(flipdot_core::FrameError::from(io::Error::new(*cx.pick(&kinds), what))),
